@@ -405,10 +405,13 @@ class Check:
         rc = 0
         for key, what in self.known_hits:
             print("KNOWN-FINDING: property=%s %s" % (self.prop, what))
-        for key, what, replay in self.violations:
+        for n, (key, what, replay) in enumerate(self.violations):
             p = self._write_replay(key, what, replay)
-            print("VIOLATION property=%s replay=%s" % (self.prop, p))
-            print("  what: %s" % what)
+            if n < 8:
+                print("VIOLATION property=%s replay=%s" % (self.prop, p))
+                print("  what: %s" % what[:600])
+            elif n == 8:
+                print("  ... %d more violations of %s (replay files written, listed in the evidence)" % (len(self.violations) - 8, self.prop))
             rc = 1
         if self.broken and not self.violations:
             # A proof obligation or a tie no longer checks and the search found no failing input.
@@ -431,6 +434,7 @@ class Check:
             "samples": self.samples if self.samples else ["(no correspondence cases in this run)"],
             "signature_histogram": dict(sorted(self.signatures.items(), key=lambda kv: -kv[1])[:40]),
             "known_findings_hit": [k for k, _ in self.known_hits],
+            "violation_keys": [k for k, _, _ in self.violations][:200],
             "broken": self.broken,
         }
         if not self.discharged or not self.obligations:
